@@ -129,7 +129,7 @@ func trRun(v trVariant, seed int64) *trResult {
 	defer cb.Close()
 	sa, sb, err := securePair(ca, cb)
 	if err != nil {
-		res.mm = &mismatch{kind: "honest", key: "handshake/honest-rejected", desc: err.Error()}
+		res.mm = honestFailure(err)
 		return res
 	}
 	nch := len(v.IDs)
@@ -201,11 +201,6 @@ func trRun(v trVariant, seed int64) *trResult {
 				res.refused++
 			}
 			sentMu.Unlock()
-			if ok && r.Intn(8) == 0 {
-				// overwrite the caller's buffer after Send returned?  No: Send keeps the slice
-				// (it is queued, not copied), the caller must not touch it.
-				_ = payload
-			}
 		}
 	}
 	phase := func(from, count int) {
@@ -217,9 +212,13 @@ func trRun(v trVariant, seed int64) *trResult {
 		}
 		wg.Wait()
 	}
+	// waitAll waits until everything accepted has been delivered.  "Stalled" is decided by
+	// counting polls that saw no progress (at least 100 of them, spread over at least 10 s of
+	// this process actually running), not by wall-clock alone: a machine that freezes for a
+	// while must not look like a connection that lost messages.
 	waitAll := func() (stalled bool, failed string) {
-		deadline := time.Now().Add(45 * time.Second)
-		lastProgress := time.Now()
+		idlePolls := 0
+		idleSince := time.Now()
 		last := -1
 		for {
 			log.mu.Lock()
@@ -239,14 +238,16 @@ func trRun(v trVariant, seed int64) *trResult {
 				return false, ""
 			}
 			if r0+r1 != last {
-				last, lastProgress = r0+r1, time.Now()
+				last, idlePolls, idleSince = r0+r1, 0, time.Now()
+			} else {
+				idlePolls++
 			}
-			if time.Since(lastProgress) > 10*time.Second || time.Now().After(deadline) {
+			if idlePolls >= 100 && time.Since(idleSince) > 10*time.Second {
 				return true, ""
 			}
 			select {
 			case <-log.sig:
-			case <-time.After(200 * time.Millisecond):
+			case <-time.After(100 * time.Millisecond):
 			}
 		}
 	}
@@ -311,6 +312,7 @@ CONSTANTS
   MaxTotal = 1000000
   QCap = 1000000
   WireCap = 1
+  CutBetween = FALSE
   Cuts = {}
 INVARIANTS InOrderWhole Assembly
 CONSTRAINT Consumed
